@@ -575,7 +575,8 @@ class BaseNetQASMConnection(abc.ABC):
         self._unread_reg_futures = []
         for reg_future in reg_futures:
             try:
-                reg_future._try_get_value()
+                if reg_future._try_get_value() is not None:
+                    reg_future._settled = True
             except Exception:  # no result available (yet): the handle stays unresolved
                 pass
 
